@@ -176,6 +176,8 @@ fn all_cfgs() -> Vec<Cfg> {
     v
 }
 
+/// web servers started by this process (each leaves threads behind for good)
+pub(crate) static WEB_STARTS: std::sync::atomic::AtomicUsize = std::sync::atomic::AtomicUsize::new(0);
 pub(crate) enum Answer {
     Line(String),
     Closed,
@@ -502,6 +504,7 @@ impl Fx {
     pub(crate) fn ask_http(&mut self, line: &str, header: Option<&str>, token_mode: bool) -> Answer {
         use std::io::Read;
         if self.web.is_none() {
+            WEB_STARTS.fetch_add(1, Ordering::SeqCst);
             for _ in 0..20 {
                 let port = std::net::TcpListener::bind("127.0.0.1:0").and_then(|l| l.local_addr()).map(|a| a.port()).expect("loopback port");
                 let addr = format!("127.0.0.1:{port}");
@@ -1000,8 +1003,9 @@ fn child(args: &[String]) -> i32 {
             ev["ci"] = json!(ci);
             writeln!(raw, "{ev}").unwrap();
             raw.flush().unwrap();
-            // every rebuilt fixture leaves a listener thread behind: start over in a fresh process now and then
-            if rn.rebuilds >= 250 {
+            // every rebuilt fixture leaves a listener thread behind, every web server a listener and its pool of
+            // worker threads (a web server cannot be shut down): start over in a fresh process now and then
+            if rn.rebuilds >= 250 || WEB_STARTS.load(Ordering::SeqCst) >= 25 {
                 return EXIT_RESTART;
             }
         }
